@@ -38,6 +38,7 @@ def run(repo, chk):
     rule_b(repo, chk)
     rule_c_g(repo, chk)
     rule_d_e(repo, chk)
+    rule_tables(repo, chk)
 
 
 def _m(cls, name):
@@ -298,6 +299,62 @@ def rule_c_g(repo, chk):
             defs = [m for m in gp.nodes if m.kind == 'stmt' and isinstance(m.ast, ast.Assign) and 'meta' in Q.node_defs(m)]
             ok = ok and bool(defs) and all('load_value(' in src(m.ast.value) for m in defs)
             chk.ob('g', pv.ref, 'the value path applies only the meta data filtered by load_value', ok, loc(pv, n.ast), discr='value-path-filtered')
+
+
+def rule_tables(repo, chk):
+    """Writer/reader agreement of the two packet formats."""
+    chk.rule('C19.j', 'the keys dump_event/dump_value write are exactly the keys load_event/load_value read, and each field is written from / restored '
+                      'to the attribute of the same name')
+    for dname, lname in (('dump_event', 'load_event'), ('dump_value', 'load_value')):
+        d = repo.func(NODE_UTILS, dname)
+        l_ = repo.func(NODE_UTILS, lname)
+        chk.touch(d)
+        chk.touch(l_)
+        written = {}
+        for n in walk_no_defs(d.node):
+            if isinstance(n, ast.Dict) and n.keys and all(isinstance(k, ast.Constant) for k in n.keys) and len(n.keys) >= 3:
+                written = {k.value: src(v) for k, v in zip(n.keys, n.values)}
+        read = set()
+        for n in walk_no_defs(l_.node):
+            if isinstance(n, ast.Subscript) and src(n.value) == 'data' and isinstance(n.slice, ast.Constant):
+                read.add(n.slice.value)
+        for n in ast.walk(l_.node):
+            if isinstance(n, ast.Subscript) and src(n.value) == 'data' and isinstance(n.slice, ast.Constant):
+                read.add(n.slice.value)
+        chk.ob('j', f'{NODE_UTILS}::{dname}/{lname}', f'{dname} writes exactly the keys {lname} reads', bool(written) and set(written) == read, NODE_UTILS,
+               detail=f'written {sorted(written)}, read {sorted(read)}', discr=f'keys:{dname}')
+        if dname == 'dump_event':
+            ev = d.params[0]
+            same = {k: v for k, v in written.items() if k not in ('id', 'meta')}
+            ok = all(v == f'{ev}.{k}' for k, v in same.items()) and written.get('id') == d.params[1]
+            chk.ob('j', d.ref, 'every field of the event packet is taken from the event attribute of the same name; the id is the call id', ok, loc(d, d.node),
+                   detail=f'{same}', discr='fields:dump_event')
+            restored = {}
+            for n in walk_no_defs(l_.node):
+                if isinstance(n, ast.Assign):
+                    for recv, attr, val in pat.attr_store(n):
+                        if recv == 'e':
+                            keys = [w.slice.value for w in ast.walk(val) if isinstance(w, ast.Subscript) and src(w.value) == 'data' and isinstance(w.slice, ast.Constant)]
+                            restored[attr] = keys
+            ok = all(v == [k] for k, v in restored.items()) and set(restored) >= {'success', 'failure', 'notify', 'channels'}
+            chk.ob('j', l_.ref, 'load_event restores each flag from the packet field of the same name', ok, loc(l_, l_.node), detail=f'{restored}', discr='fields:load_event')
+            ctor = [c for c in calls_in(l_.node) if (call_name(c) or '').endswith('.create')]
+            ok = bool(ctor) and [src(a) for a in ctor[0].args] == ['name', '*args'] and any(k.arg is None and src(k.value) == 'kwargs' for k in ctor[0].keywords)
+            chk.ob('j', l_.ref, 'the event is re-created from name, args and kwargs of the packet', ok, loc(l_, l_.node), discr='recreated')
+        else:
+            v = d.params[0]
+            ok = written.get('id') == f'{v}.node_call_id' and written.get('errors') == f'{v}.errors' and written.get('value') in (f'{v}._value', f'{v}.value')
+            chk.ob('j', d.ref, 'the value packet carries the call id, the error flag and the value of the Value it was made from', ok, loc(d, d.node),
+                   detail=f'{written}', discr='fields:dump_value')
+            rets = [n for n in walk_no_defs(l_.node) if isinstance(n, ast.Return)]
+            ok = bool(rets) and all(isinstance(r.value, ast.Tuple) and [src(x) for x in r.value.elts[:3]] == ["data['value']", "data['id']", "data['errors']"] for r in rets)
+            chk.ob('j', l_.ref, 'load_value returns (value, id, errors, meta) from the fields of the same name', ok, loc(l_, l_.node), discr='fields:load_value')
+    pv = _m(repo.cls(NODE_PROTOCOL, 'Protocol'), '__process_packet_value')
+    unp = [n for n in walk_no_defs(pv.node) if isinstance(n, ast.Assign) and isinstance(n.targets[0], ast.Tuple) and 'load_value(' in src(n.value)]
+    ok = bool(unp) and [src(x) for x in unp[0].targets[0].elts] == ['value', 'id', 'error', 'meta']
+    uses = 'self.__events.get(id)' in src(pv.node) and 'setValue(value)' in src(pv.node) and 'ev.errors = error' in src(pv.node)
+    chk.ob('j', pv.ref, 'a received result is matched to the in-flight call by its id and stores value and error flag on that call\'s event', ok and uses,
+           loc(pv, pv.node), discr='result-matched-by-id')
 
 
 def rule_d_e(repo, chk):
